@@ -104,6 +104,15 @@ def _run(mod, cid, tier, seed, root, tmp, opts, t0):
     if opts.replay:
         params['replay'] = json.load(open(opts.replay))
         nshards = 1
+        if not getattr(mod, 'SUPPORTS_REPLAY', False):
+            # the replay file is self-contained: it holds the witness (input / history / program,
+            # expected and observed); checks without a re-execution hook show it
+            r = params['replay']
+            print('replay of %s (key %s, seed %s, tier %s): re-run  VERIF_SEED=%s ./vcheck %s --tier %s  to '
+                  'reproduce; recorded witness:' % (cid, r.get('key'), r.get('seed'), r.get('tier'),
+                                                    r.get('seed'), cid, r.get('tier')))
+            print(r.get('what'))
+            return 0
     timeout = getattr(mod, 'TIMEOUT', {'quick': 900, 'thorough': 7200})[tier]
     jobs = []
     for s in range(nshards):
